@@ -22,7 +22,11 @@ import (
 
 // ---- payloads: [producer u8][counter u24] + pseudo random body determined by (producer, counter, length) ----
 
+// n == 0 is the empty message: it carries no header, so the oracle identifies it by its sequence (see emptyRecAt).
 func payload(prod, ctr, n int) []byte {
+	if n == 0 {
+		return []byte{}
+	}
 	if n < 4 {
 		n = 4
 	}
@@ -81,12 +85,26 @@ type state struct {
 	inBytes   int32 // number of appenders currently inside their page store
 	overlaps  int32
 	tag       string // fault families: names the injected fault; replaces the order tag in violation classes
+	// empty messages (length 0) carry no header: they are kept in call order and matched to sequences
+	empties       []*putRec
+	emptyTailOpen bool // the queue was (re)opened while its last appended message was an empty one
 }
 
 // sfx is the class suffix of the fault families ("" everywhere else).
+// A history in which the queue was opened with an empty message as its last appended one says so in the class.
 func (s *state) sfx() string {
-	if s.tag != "" {
-		return "/" + s.tag
+	s.mu.Lock()
+	et := s.emptyTailOpen
+	s.mu.Unlock()
+	t := s.tag
+	if et {
+		if t != "" {
+			t += "+"
+		}
+		t += emptyTailTag
+	}
+	if t != "" {
+		return "/" + t
 	}
 	return ""
 }
@@ -121,6 +139,10 @@ func (s *state) doPut(q queue.Queue, prod, ctr, n int, world *imgfs.World) *putR
 	rec := &putRec{Prod: prod, Ctr: ctr, Len: len(data), Seq: -1}
 	s.mu.Lock()
 	s.puts[[2]int{prod, ctr}] = rec
+	if len(data) == 0 {
+		s.empties = append(s.empties, rec)
+		s.res.Counters["empty.empty_messages_appended"]++
+	}
 	s.mu.Unlock()
 	if world != nil {
 		rec.First = world.Count()
@@ -136,6 +158,19 @@ func (s *state) doPut(q queue.Queue, prod, ctr, n int, world *imgfs.World) *putR
 	}
 	if err != nil {
 		rec.Err = err.Error()
+	}
+	return rec
+}
+
+// doPutSeq is doPut for a moment without any other appender: the sequence the message was published under is the
+// appended sequence right after the Put (noted only if it moved by exactly one).
+func (s *state) doPutSeq(q queue.Queue, prod, ctr, n int, world *imgfs.World) *putRec {
+	before := q.AppendedSeq()
+	rec := s.doPut(q, prod, ctr, n, world)
+	if after := q.AppendedSeq(); rec.Err == "" && after == before+1 {
+		s.mu.Lock()
+		rec.Seq = after
+		s.mu.Unlock()
 	}
 	return rec
 }
@@ -161,6 +196,8 @@ func (s *state) verifyAll(q queue.Queue, phase string, requireAcked bool, prev m
 	app, ack := q.AppendedSeq(), q.AcknowledgedSeq()
 	out := map[int64][]byte{}
 	seen := map[[2]int]int64{}
+	emptyAt := s.emptyIndex()
+	emptyRead := 0
 	for seq := ack + 1; seq <= app; seq++ {
 		data, err := q.Get(seq)
 		if err != nil {
@@ -175,6 +212,12 @@ func (s *state) verifyAll(q queue.Queue, phase string, requireAcked bool, prev m
 			s.mu.Lock()
 			rec = s.puts[[2]int{prod, ctr}]
 			s.mu.Unlock()
+		} else if len(cp) == 0 {
+			// an empty message is identified by its sequence
+			if rec = emptyAt(seq); rec != nil {
+				prod, ctr = rec.Prod, rec.Ctr
+				emptyRead++
+			}
 		}
 		if rec == nil {
 			s.violate("C05/unknown-bytes-at-sequence"+s.sfx(), "%s: sequence %d holds %d bytes that no append wrote (head % x)", phase, seq, len(cp), head(cp))
@@ -233,7 +276,69 @@ func (s *state) verifyAll(q queue.Queue, phase string, requireAcked bool, prev m
 		}
 	}
 	s.count("sequences_read_back", len(out))
+	s.count("empty.empty_messages_read_back_under_their_sequence", emptyRead)
 	return out
+}
+
+// emptyIndex returns the lookup "which empty append was published under this sequence". Appends whose sequence is
+// already known (single-appender histories note it when Put returns, others when the message was first read back)
+// are found by it; an empty message read at a sequence that is not known yet is given to the earliest called empty
+// append that returned success and has no sequence yet (matching in call order: it never produces a real-time order
+// or density complaint that another matching would avoid). nil = no empty append explains this sequence.
+func (s *state) emptyIndex() func(seq int64) *putRec {
+	s.mu.Lock()
+	bySeq := map[int64]*putRec{}
+	var open []*putRec
+	for _, r := range s.empties {
+		switch {
+		case r.Seq >= 0:
+			bySeq[r.Seq] = r
+		case r.Err == "" && r.Ret > 0:
+			open = append(open, r)
+		}
+	}
+	s.mu.Unlock()
+	sort.SliceStable(open, func(i, j int) bool { return open[i].Call < open[j].Call })
+	return func(seq int64) *putRec {
+		if r := bySeq[seq]; r != nil {
+			return r
+		}
+		if len(open) == 0 {
+			return nil
+		}
+		r := open[0]
+		open = open[1:]
+		bySeq[seq] = r
+		return r
+	}
+}
+
+// noteOpen is called after every NewQueue on a directory that holds messages: it records (for the evidence and for
+// the violation class) that the write position was restored from the index entry of an empty message.
+func (s *state) noteOpen(q queue.Queue, how string) bool {
+	if !s.emptyTailExpected(q) {
+		return false
+	}
+	s.mu.Lock()
+	s.emptyTailOpen = true
+	s.res.Counters["empty.opens_with_an_empty_message_at_the_tail"]++
+	s.res.Counters["empty.opens_with_an_empty_message_at_the_tail."+how]++
+	s.mu.Unlock()
+	return true
+}
+
+// emptyTailExpected: the append recorded at q's appended sequence is an empty one (decided from the records, not from
+// what the queue returns).
+func (s *state) emptyTailExpected(q queue.Queue) bool {
+	app := q.AppendedSeq()
+	s.mu.Lock()
+	defer s.mu.Unlock()
+	for i := len(s.empties) - 1; i >= 0; i-- {
+		if s.empties[i].Seq == app && app >= 0 {
+			return true
+		}
+	}
+	return false
 }
 
 func head(b []byte) []byte {
@@ -247,10 +352,13 @@ func head(b []byte) []byte {
 // (observed at the page wrapper); it is part of the violation class.
 func (s *state) orderTag() string {
 	if s.tag != "" {
-		return s.tag
+		return s.sfx()[1:]
 	}
 	if s.reordered() {
 		return "publication-order-differs-from-allocation-order"
+	}
+	if t := s.sfx(); t != "" {
+		return t[1:]
 	}
 	return "appends-in-allocation-order"
 }
@@ -337,6 +445,8 @@ func runCase() {
 		caseBackReset(res, idx, dir, seed, tier)
 	case "putfault":
 		casePutFault(res, idx, dir, seed, tier)
+	case "emptytail":
+		caseEmptyTail(res, idx, dir, seed)
 	}
 	seam.Restore()
 	data, _ := json.Marshal(res)
@@ -369,7 +479,12 @@ func caseStress(res *caseResult, idx int, dir string, seed int64, tier string) {
 	perApp := 5 + r.Intn(30)
 	delayUs := []int{0, 50, 500, 3000}[r.Intn(4)]
 	big := idx%7 == 0 // a few messages of 40-60MiB so that data pages roll over
-	res.Config = fmt.Sprintf("appenders=%d perAppender=%d delayUs=%d big=%v", appenders, perApp, delayUs, big)
+	// empty messages: one of the appenders sends a few zero-length messages among its others (idx%3 != 2), and the last
+	// message before close/reopen is an empty one (idx%4 < 2)
+	withEmpty := idx%3 != 2
+	emptyTail := idx%4 < 2
+	re := rand.New(rand.NewSource(seed*6007 + int64(idx)*53 + 9))
+	res.Config = fmt.Sprintf("appenders=%d perAppender=%d delayUs=%d big=%v emptyMessages=%v emptyTail=%v", appenders, perApp, delayUs, big, withEmpty, emptyTail)
 	st := newState(res)
 	var dmu sync.Mutex
 	dr := rand.New(rand.NewSource(seed + int64(idx)))
@@ -400,12 +515,16 @@ func caseStress(res *caseResult, idx int, dir string, seed int64, tier string) {
 			n := sizeOf(r)
 			if big && a < 2 && c == perApp/2 {
 				n = (40 + r.Intn(20)) << 20
+			} else if withEmpty && a == appenders-1 && (c == perApp-1 || re.Intn(4) == 0) {
+				n = 0 // only one appender sends empty messages: its k-th empty message is the k-th empty sequence
 			}
 			plans[a] = append(plans[a], plan{a + 1, c, n})
 		}
 	}
 	var wg sync.WaitGroup
 	var stop atomic.Bool
+	var emu sync.Mutex
+	readEmpty := map[int64]bool{} // sequences a concurrent reader saw as an empty message
 	// readers: an already published sequence always shows the bytes of one append
 	for ri := 0; ri < 2; ri++ {
 		wg.Add(1)
@@ -422,6 +541,14 @@ func caseStress(res *caseResult, idx int, dir string, seed int64, tier string) {
 				data, err := q.Get(seq)
 				if err != nil {
 					st.violate("C05/get-fails-above-ack", "concurrent Get(%d) with appended>=%d: %v", seq, app, err)
+					continue
+				}
+				if withEmpty && len(data) == 0 {
+					// decided after the appenders have finished: the sequence must then be one of the empty messages
+					emu.Lock()
+					readEmpty[seq] = true
+					emu.Unlock()
+					st.count("concurrent_reads", 1)
 					continue
 				}
 				prod, ctr, ok := identify(data)
@@ -458,6 +585,12 @@ func caseStress(res *caseResult, idx int, dir string, seed int64, tier string) {
 	st.count("appends", appenders*perApp)
 	all := st.verifyAll(q, "after concurrent appends", true, nil)
 	st.checkOrder(q, "after concurrent appends", -1)
+	for seq := range readEmpty {
+		if now, ok := all[seq]; ok && len(now) != 0 {
+			st.violate("C05/bytes-differ/concurrent-read", "concurrent Get(%d) returned an empty message, the sequence holds %d bytes (head % x)", seq, len(now), head(now))
+		}
+		st.count("empty.concurrent_reads_of_an_empty_message", 1)
+	}
 	if st.reordered() {
 		st.count("runs_with_publication_order_differing_from_allocation_order", 1)
 	}
@@ -474,17 +607,33 @@ func caseStress(res *caseResult, idx int, dir string, seed int64, tier string) {
 		all = st.verifyAll(q, "after ack+gc", true, all)
 		st.count("ack_gc_rounds", 1)
 	}
+	if emptyTail {
+		for c := 0; c <= idx%2; c++ {
+			if rec := st.doPutSeq(q, 201, c, 0, nil); rec.Err != "" {
+				st.violate("C05/put-fails", "Put of an empty message: %s", rec.Err)
+			}
+		}
+		all = st.verifyAll(q, "after an empty message at the tail", true, all)
+	}
 	q.Close()
 	q2, err := queue.NewQueue(qdir, pageSize)
 	if err != nil {
 		st.violate("C05/reopen-fails", "NewQueue after close: %v", err)
 		return
 	}
+	behind := st.noteOpen(q2, "close-reopen")
 	all = st.verifyAll(q2, "after reopen", true, all)
 	for c := 0; c < 5; c++ {
-		rec := st.doPut(q2, 200, c, sizeOf(r), nil)
+		n := sizeOf(r)
+		if withEmpty && c == 2 {
+			n = 0
+		}
+		rec := st.doPutSeq(q2, 200, c, n, nil)
 		if rec.Err != "" {
 			st.violate("C05/put-fails", "Put after reopen: %s", rec.Err)
+		}
+		if c == 0 && behind {
+			st.count("empty.appends_right_after_an_open_behind_an_empty_message", 1)
 		}
 	}
 	st.verifyAll(q2, "after appends on the reopened queue", true, all)
@@ -500,7 +649,10 @@ func caseInterleave(res *caseResult, idx int, dir string, seed int64) {
 	kB := 1 + (idx/4)%3
 	rollover := idx%7 == 6
 	sizeA := sizeOf(r)
-	res.Config = fmt.Sprintf("prefill=%d bPuts=%d rollover=%v sizeA=%d", prefill, kB, rollover, sizeA)
+	// empty messages: in the prefill (idx%5 == 1), as B's last message (idx%5 == 2: the message published while A is
+	// parked / right behind A is an empty one) and as the last message before close/reopen (idx%3 == 1)
+	emptyPrefill, emptyB, emptyTail := idx%5 == 1, idx%5 == 2, idx%3 == 1
+	res.Config = fmt.Sprintf("prefill=%d bPuts=%d rollover=%v sizeA=%d emptyPrefill=%v emptyB=%v emptyTail=%v", prefill, kB, rollover, sizeA, emptyPrefill, emptyB, emptyTail)
 	st := newState(res)
 	parked := make(chan struct{})
 	release := make(chan struct{})
@@ -525,7 +677,11 @@ func caseInterleave(res *caseResult, idx int, dir string, seed int64) {
 		return
 	}
 	for c := 0; c < prefill; c++ {
-		st.doPut(q, 9, c, sizeOf(r), nil)
+		n := sizeOf(r)
+		if emptyPrefill && c == prefill-1 {
+			n = 0
+		}
+		st.doPutSeq(q, 9, c, n, nil)
 	}
 	if rollover {
 		// fill the first data page so that A's allocation is the last of page 0 and B's rolls over to page 1
@@ -542,7 +698,11 @@ func caseInterleave(res *caseResult, idx int, dir string, seed int64) {
 	bDone := make(chan struct{})
 	go func() {
 		for c := 0; c < kB; c++ {
-			st.doPut(q, 2, c, sizeOf(r), nil)
+			n := sizeOf(r)
+			if emptyB && c == kB-1 {
+				n = 0
+			}
+			st.doPut(q, 2, c, n, nil)
 		}
 		close(bDone)
 	}()
@@ -567,15 +727,23 @@ func caseInterleave(res *caseResult, idx int, dir string, seed int64) {
 	if atomic.LoadInt32(&st.overlaps) > 0 {
 		res.Nontrivial = append(res.Nontrivial, fmt.Sprintf("interleave%d", idx))
 	}
+	if emptyTail {
+		st.doPutSeq(q, 4, 0, 0, nil)
+		all = st.verifyAll(q, "after an empty message at the tail", true, all)
+	}
 	q.Close()
 	q2, err := queue.NewQueue(qdir, pageSize)
 	if err != nil {
 		st.violate("C05/reopen-fails", "NewQueue after close: %v", err)
 		return
 	}
+	behind := st.noteOpen(q2, "close-reopen")
 	all = st.verifyAll(q2, "after reopen", true, all)
 	for c := 0; c < 3; c++ {
-		st.doPut(q2, 3, c, sizeOf(r), nil)
+		st.doPutSeq(q2, 3, c, sizeOf(r), nil)
+		if c == 0 && behind {
+			st.count("empty.appends_right_after_an_open_behind_an_empty_message", 1)
+		}
 		all = st.verifyAll(q2, fmt.Sprintf("after append %d on the reopened queue", c), true, all)
 	}
 	q2.Close()
@@ -592,7 +760,12 @@ func caseCrash(res *caseResult, idx int, dir string, seed int64) {
 	if idx%3 == 0 {
 		reopenAt = 2 + r.Intn(nPuts-2)
 	}
-	res.Config = fmt.Sprintf("puts=%d twoAppenders=%v reopenAt=%d", nPuts, twoAppenders, reopenAt)
+	// empty messages (own random stream): about one append in five is empty, the append before a reopen is empty in
+	// every second history that has one, and the last append of the history is empty when idx%4 == 2
+	re := rand.New(rand.NewSource(seed*4409 + int64(idx)*37 + 3))
+	emptyBeforeReopen := reopenAt >= 0 && (idx/3)%2 == 0
+	emptyLast := idx%4 == 2
+	res.Config = fmt.Sprintf("puts=%d twoAppenders=%v reopenAt=%d emptyBeforeReopen=%v emptyLast=%v", nPuts, twoAppenders, reopenAt, emptyBeforeReopen, emptyLast)
 	st := newState(res)
 	qdir := filepath.Join(dir, "q")
 	world := imgfs.NewWorld(qdir, filepath.Join(dir, "img"))
@@ -630,10 +803,14 @@ func caseCrash(res *caseResult, idx int, dir string, seed int64) {
 				st.violate("C05/reopen-fails", "NewQueue after close: %v", err)
 				return
 			}
+			st.noteOpen(q, "close-reopen")
 		}
 		n := 4 + r.Intn(300)
 		if r.Intn(6) == 0 {
 			n = 3000 + r.Intn(4000)
+		}
+		if re.Intn(5) == 0 || (emptyBeforeReopen && c == reopenAt-1) || (emptyLast && c == nPuts-1) {
+			n = 0
 		}
 		if twoAppenders && c%3 == 1 {
 			var wg sync.WaitGroup
@@ -645,7 +822,7 @@ func caseCrash(res *caseResult, idx int, dir string, seed int64) {
 			wg.Wait()
 			order = append(order, r1, r2)
 		} else {
-			order = append(order, st.doPut(q, 1, c, n, world))
+			order = append(order, st.doPutSeq(q, 1, c, n, world))
 		}
 	}
 	world.Snapshot("final")
@@ -729,6 +906,15 @@ func caseCrash(res *caseResult, idx int, dir string, seed int64) {
 					return
 				}
 			}
+			// the write position of the recovered queue was restored from the index entry of an empty message
+			tailSfx := ""
+			for _, p := range order {
+				if p.Len == 0 && p.Seq == app && app > ack && explained[app] {
+					tailSfx = "/last-appended-message-is-empty"
+					st.count("empty.crash_images_whose_last_appended_message_is_empty", 1)
+					break
+				}
+			}
 			// appending on the recovered queue must not disturb what was there
 			newRec := &putRec{Prod: 77, Ctr: k, Len: 40 + k%50}
 			if err := rq.Put(payload(77, k, newRec.Len)); err != nil {
@@ -741,7 +927,7 @@ func caseCrash(res *caseResult, idx int, dir string, seed int64) {
 			for seq, old := range got {
 				now, err := rq.Get(seq)
 				if err != nil || !bytes.Equal(now, old) {
-					st.violate("C05/image/later-put-alters-earlier-message", "image %d (after %q): after an append on the recovered queue sequence %d changed (err=%v)", k, img.Label, seq, err)
+					st.violate("C05/image/later-put-alters-earlier-message"+tailSfx, "image %d (after %q): after an append on the recovered queue sequence %d changed (err=%v)", k, img.Label, seq, err)
 					return
 				}
 			}
@@ -750,7 +936,7 @@ func caseCrash(res *caseResult, idx int, dir string, seed int64) {
 				// the two stores that initialise a brand-new meta page (appended=-1 stored, acknowledged still 0).
 				st.count("images_where_recovered_ack_is_ahead_of_appended", 1)
 			} else if now, err := rq.Get(app + 1); err != nil || !bytes.Equal(now, payload(77, k, newRec.Len)) {
-				st.violate("C05/image/new-append-not-readable", "image %d (after %q): appended=%d ack=%d err=%v", k, img.Label, app, ack, err)
+				st.violate("C05/image/new-append-not-readable"+tailSfx, "image %d (after %q): appended=%d ack=%d err=%v", k, img.Label, app, ack, err)
 			}
 			st.count("images_recovered_and_checked", 1)
 		}()
